@@ -297,8 +297,13 @@ def run_check(modname, tier, seed, replay=None):
 
     status = 0
     lines = []
+    by_entry = {}
     for sig, (k, vs) in sorted(old.items()):
-        lines.append(f'KNOWN-FINDING: property={prop} {k["what_fails"]} [sig={sig} cases={len(vs)}]')
+        e = by_entry.setdefault(id(k), [k, [], 0])
+        e[1].append(sig)
+        e[2] += len(vs)
+    for k, sigs, n in by_entry.values():
+        lines.append(f'KNOWN-FINDING: property={prop} {k["what_fails"]} [sig={",".join(sigs)} cases={n}]')
     confirmed = 0
     for sig, (_, vs) in sorted(new.items()):
         path = write_replay(prop, vs[0])
